@@ -235,6 +235,10 @@ def run_check(prop, tier, seed):
                             "states": rep.get("states"), "transitions": rep.get("transitions"), "notes": rep.get("notes", {})})
         for v in rep.get("violations", []):
             violations.append((v, r["job"], r["cmd"]))
+        nb = rep.get("notes", {})
+        if "deviation_bound_completed_for_all_scenarios" in nb and not rep.get("exhaustive", False):
+            # budget hit: say what was covered completely below the cap
+            capped.append("%s:budget(all scenarios complete up to %s of %s deviations)" % (jn, nb["deviation_bound_completed_for_all_scenarios"], nb.get("deviation_bound_max")))
     cov["rule"] = " || ".join(rules)
     if capped:
         cov["caps_hit"] = capped
